@@ -18,6 +18,7 @@ package main
 
 import (
 	"fmt"
+	"net/url"
 	"os"
 	"sort"
 	"strconv"
@@ -74,7 +75,7 @@ func (o Op) line() string {
 		}
 		return l
 	case "user":
-		return "user " + o.User
+		return "user " + dash(o.User)
 	}
 	return o.Op
 }
@@ -82,6 +83,64 @@ func (o Op) line() string {
 // ---------- generators ----------
 
 var namePool = []string{"alice", "bob", "carol", "dave", "erin", "u0", "u1", "u2", "u3", "zed"}
+
+// nameAlphabets: username sets chosen so that different notions of "order" and "equality" of names disagree
+// (byte-wise vs case-insensitive vs locale collation vs natural numbers, prefixes, case-only differences,
+// UTF-8, URL escapes, long names, many names). A per-user projection that depends on the order or shape of
+// the snapshot's user list, or on the alphabet of the names, shows on one of these.
+// Excluded only by the line protocol: whitespace, ',', a lone "-", "." / "..", '/'.
+var nameAlphabets = [][]string{
+	namePool,
+	{"Zoe", "adam", "Bob", "carol", "Dave", "erin", "Frank", "gina", "HAL", "ivy"},
+	{"bob", "Bob", "BOB", "bOb", "boB", "alice", "Alice", "ALICE", "aLICE"},
+	{"a", "ab", "abc", "abcd", "aB", "Ab", "AB", "b", "ba", "a0", "a_", "a~", "ab0"},
+	{"\u00e9mile", "\u00c9mile", "zo\u00eb", "Zoe", "zoe", "\u00df", "ss", "\u00ff", "z", "\u65e5\u672c", "\u65e5\u672c\u8a9e", "\u0436", "\u0416", "\uff41", "a", "\u00e9", "e\u0301", "\U0001f600"}, // UTF-8: NFC/NFD, fullwidth, CJK, Cyrillic, astral
+	{"0", "9", "A", "Z", "_", "a", "z", "~", "!", "10", "2", "Z9", "a1", "%41", "a+b", "+", "a%2Fb", "@", "a@b"},
+	{strings.Repeat("x", 200), strings.Repeat("x", 199) + "y", strings.Repeat("X", 200), "x", "X", strings.Repeat("xy", 100), strings.Repeat("x", 201)},
+	manyNames(64),
+}
+
+func manyNames(n int) []string {
+	var ns []string
+	for i := 0; i < n; i++ {
+		switch i % 4 {
+		case 0:
+			ns = append(ns, fmt.Sprintf("user%02d", i))
+		case 1:
+			ns = append(ns, fmt.Sprintf("User%02d", i))
+		case 2:
+			ns = append(ns, fmt.Sprintf("USER%d", i))
+		default:
+			ns = append(ns, fmt.Sprintf("u%d_%c", i, 'A'+rune(i%26)))
+		}
+	}
+	return ns
+}
+
+// pickNames: 1..max names from one alphabet (sometimes two mixed), in random order
+func pickNames(r *common.Rng) []string {
+	al := append([]string{}, common.Pick(r, nameAlphabets)...)
+	if r.Chance(1, 6) {
+		al = append(al, common.Pick(r, nameAlphabets[:7])...)
+	}
+	seen := map[string]bool{}
+	var uniq []string
+	for _, n := range al {
+		if !seen[n] {
+			seen[n] = true
+			uniq = append(uniq, n)
+		}
+	}
+	for i := len(uniq) - 1; i > 0; i-- {
+		j := r.Intn(i + 1)
+		uniq[i], uniq[j] = uniq[j], uniq[i]
+	}
+	k := r.Range(1, len(uniq))
+	if len(uniq) > 12 && !r.Chance(1, 3) { // many users only sometimes at full size
+		k = r.Range(1, 12)
+	}
+	return uniq[:k]
+}
 
 func genValue(r *common.Rng) uint64 {
 	switch r.Intn(20) {
@@ -106,15 +165,26 @@ var clearVariants = [][]string{nil, {""}, {"true"}, {"false"}, {"1"}, {"true", "
 
 func genCase(r *common.Rng, maxOps int) Case {
 	c := Case{Engine: "seq"}
-	nUsers := r.Range(1, len(namePool))
-	pool := append([]string{}, namePool[:nUsers]...)
+	pool := pickNames(r)
+	var noTraffic []string // names that get a credential but never traffic, and names with neither
 	for _, n := range pool {
-		if r.Chance(2, 3) {
+		if r.Chance(3, 4) {
 			c.Creds = append(c.Creds, n)
 		}
 	}
-	if r.Chance(1, 4) && nUsers < len(namePool) { // a credential whose user never has traffic
-		c.Creds = append(c.Creds, namePool[nUsers])
+	for _, n := range common.Pick(r, nameAlphabets[:6]) {
+		if len(noTraffic) < 2 && !contains(pool, n) {
+			noTraffic = append(noTraffic, n)
+		}
+	}
+	if len(noTraffic) > 0 && r.Chance(1, 2) {
+		c.Creds = append(c.Creds, noTraffic[0])
+	}
+	askable := append(append([]string{}, pool...), noTraffic...)
+	sweep := func() { // GET user for EVERY name of the case: with/without credential, with/without traffic
+		for _, n := range askable {
+			c.Ops = append(c.Ops, Op{Op: "user", User: n})
+		}
 	}
 	n := r.Range(1, maxOps)
 	for i := 0; i < n; i++ {
@@ -123,23 +193,39 @@ func genCase(r *common.Rng, maxOps int) Case {
 			user = common.Pick(r, pool)
 		}
 		switch k := r.Intn(100); {
-		case k < 22:
+		case k < 24:
 			c.Ops = append(c.Ops, Op{Op: "tcp", User: user, A: genValue(r), B: genValue(r)})
-		case k < 42:
+		case k < 46:
 			c.Ops = append(c.Ops, Op{Op: "udpdown", User: user, A: genValue(r), B: genValue(r)})
-		case k < 60:
+		case k < 66:
 			c.Ops = append(c.Ops, Op{Op: "udpup", User: user, A: genValue(r), B: genValue(r)})
-		case k < 68:
+		case k < 73:
 			c.Ops = append(c.Ops, Op{Op: "snap"})
-		case k < 76:
+		case k < 80:
 			c.Ops = append(c.Ops, Op{Op: "reset"})
-		case k < 86:
+		case k < 89:
 			c.Ops = append(c.Ops, Op{Op: "stats", Vals: common.Pick(r, clearVariants)})
+		case k < 97:
+			c.Ops = append(c.Ops, Op{Op: "user", User: common.Pick(r, askable)})
+		case k < 98:
+			c.Ops = append(c.Ops, Op{Op: "user", User: ""}) // no such route segment: 404
 		default:
-			c.Ops = append(c.Ops, Op{Op: "user", User: common.Pick(r, namePool)})
+			if len(askable) <= 16 {
+				sweep()
+			}
 		}
 	}
+	sweep() // after every history: every user's answer is compared with that user's figures
 	return c
+}
+
+func contains(xs []string, x string) bool {
+	for _, y := range xs {
+		if x == y {
+			return true
+		}
+	}
+	return false
 }
 
 // ---------- ledger oracle (written from the property statement and the Collector interface) ----------
@@ -315,7 +401,7 @@ func runSeq(c Case) (out []string, fails []common.OracleFailure, panicked any) {
 					// a request without clear must not reset anything: verified by the next snapshot's ledger check
 				}
 			case "user":
-				status, body := srv.get("/servers/" + serverName + "/users/" + o.User)
+				status, body := srv.get("/servers/" + serverName + "/users/" + url.PathEscape(o.User))
 				line, name, f, perr := renderUser(status, body)
 				out = append(out, line)
 				switch {
@@ -380,7 +466,7 @@ func evalSeq(cases []Case, o *common.Options, rep *common.Report) error {
 			lines = append(lines, c.lines()...)
 		}
 		var err error
-		if model, err = common.RunDriverOnce(o.Driver, lines); err != nil {
+		if model, err = runDriver(o.Driver, lines); err != nil {
 			return err
 		}
 	}
